@@ -56,11 +56,35 @@ fn small_stream(tag: &str) -> Object {
     Object::Stream(d, format!("% {tag}\n0 0 20 20 re f\n").into_bytes())
 }
 
-/// names in a scrambled (salt-dependent) insertion order so that insertion order never coincides with sorted order by accident
+/// names in a scrambled (salt-dependent) insertion order so that insertion order never coincides with sorted order by accident,
+/// followed by families that differ as strings but collide under plausible normalisations of a sort key (a non-injective key
+/// leaves ties of the stable sort in hash order): zero padding of the trailing counter, bare stem vs stem+0, letter case,
+/// Unicode composed/decomposed forms, a counter beyond u64, natural order vs string order (2 / 10).
 fn names(prefix: &str, n: u64, salt: u64) -> Vec<String> {
     let mut v: Vec<String> = (0..n).map(|i| format!("{prefix}{}", (i * 7 + salt) % 97)).collect();
+    let k = 1 + salt % 9;
+    let fam = [
+        format!("{prefix}x{k}"), format!("{prefix}x0{k}"), format!("{prefix}x00{k}"),
+        format!("{prefix}y"), format!("{prefix}y0"), format!("{prefix}y00"),
+        format!("{prefix}z{k}"), format!("{}z{k}", prefix.to_lowercase()), format!("{}z{k}", prefix.to_uppercase()),
+        format!("{prefix}\u{e9}{k}"), format!("{prefix}e\u{301}{k}"),
+        format!("{prefix}w2"), format!("{prefix}w10"),
+        format!("{prefix}v99999999999999999999991"), format!("{prefix}v99999999999999999999992"),
+    ];
+    let take = if n >= 3 { fam.len() } else { 6 + (salt as usize % 3) * 3 };
+    for (i, f) in fam.iter().enumerate() {
+        if i < take || (salt + i as u64) % 2 == 0 {
+            v.push(f.clone());
+        }
+    }
+    v.sort();
     v.dedup();
-    v.reverse();
+    // scramble deterministically
+    let len = v.len();
+    for i in (1..len).rev() {
+        let j = ((salt + 1) * (i as u64 + 3) * 2654435761 % (i as u64 + 1)) as usize;
+        v.swap(i, j);
+    }
     v
 }
 
@@ -84,7 +108,9 @@ pub fn build(spec: &Value) -> Result<Document, String> {
     if ttf {
         let data = std::fs::read("/usr/share/fonts/truetype/dejavu/DejaVuSans.ttf").map_err(|e| format!("ttf: {e}"))?;
         doc.add_font_from_bytes("DejaVu", data.clone()).map_err(|e| format!("add_font: {e:?}"))?;
-        doc.add_font_from_bytes("Another", data).map_err(|e| format!("add_font: {e:?}"))?;
+        doc.add_font_from_bytes("Another", data.clone()).map_err(|e| format!("add_font: {e:?}"))?;
+        doc.add_font_from_bytes("Face1", data.clone()).map_err(|e| format!("add_font: {e:?}"))?;
+        doc.add_font_from_bytes("Face01", data).map_err(|e| format!("add_font: {e:?}"))?;
     }
     let mut fm = FormManager::new();
     let mut any_field = false;
@@ -98,6 +124,8 @@ pub fn build(spec: &Value) -> Result<Document, String> {
         if ttf {
             page.text().set_font(Font::Custom("DejaVu".into()), 12.0).at(50.0, 700.0).write("Zażółć gęślą jaźń — ✓ αβγ").map_err(|e| format!("{e:?}"))?;
             page.text().set_font(Font::Custom("Another".into()), 9.0).at(50.0, 680.0).write("second face: ĄĆĘŁ 123").map_err(|e| format!("{e:?}"))?;
+            page.text().set_font(Font::Custom("Face1".into()), 9.0).at(50.0, 660.0).write("tie one").map_err(|e| format!("{e:?}"))?;
+            page.text().set_font(Font::Custom("Face01".into()), 9.0).at(50.0, 650.0).write("tie two").map_err(|e| format!("{e:?}"))?;
         }
         if has(spec, "images") {
             for (i, name) in names("Im", n, salt).iter().enumerate() {
@@ -105,6 +133,11 @@ pub fn build(spec: &Value) -> Result<Document, String> {
                 let img = Image::from_gray_data((0..w * 2).map(|k| (k * 37 + salt as u32) as u8).collect(), w, 2).map_err(|e| format!("img: {e:?}"))?;
                 page.add_image(name.clone(), img);
                 page.draw_image(name, 300.0, 700.0 - 30.0 * i as f64, 20.0, 20.0).map_err(|e| format!("{e:?}"))?;
+            }
+            // add_image accepts any string: names that differ only in trailing white space
+            for (i, name) in ["ImT", "ImT ", "ImT  "].iter().enumerate() {
+                let img = Image::from_gray_data(vec![(i as u8) * 40 + 3; 4], 2, 2).map_err(|e| format!("img: {e:?}"))?;
+                page.add_image(name.to_string(), img);
             }
         }
         if has(spec, "alpha") {
@@ -115,14 +148,14 @@ pub fn build(spec: &Value) -> Result<Document, String> {
             }
         }
         if has(spec, "formx") {
-            for name in names("Fx", n, salt + 2) {
-                page.add_form_xobject(name, FormXObject::new(Rectangle::from_position_and_size(0.0, 0.0, 50.0, 50.0))).map_err(|e| format!("{e:?}"))?;
+            for (i, name) in names("Fx", n, salt + 2).into_iter().enumerate() {
+                page.add_form_xobject(name, FormXObject::new(Rectangle::from_position_and_size(0.0, 0.0, 50.0 + i as f64, 50.0))).map_err(|e| format!("{e:?}"))?;
             }
         }
         if has(spec, "extg") {
             let g = page.graphics();
-            for i in 0..n {
-                g.set_alpha(0.1 + 0.17 * i as f64).map_err(|e| format!("{e:?}"))?;
+            for i in 0..(n + 9) {
+                g.set_alpha(0.05 + 0.06 * i as f64).map_err(|e| format!("{e:?}"))?;
                 g.set_line_width(1.0 + i as f64);
                 g.rect(60.0 + 30.0 * i as f64, 500.0, 25.0, 25.0).fill();
             }
